@@ -92,9 +92,9 @@ func init() {
 		Rule:        "Possibilities(e) on every tree of the C09 spaces (conditionals as operands, branches, conditions and memory-load addresses; up to 2 internal nodes quick, 3 thorough; plus 'twin' trees of 5..7 internal nodes: binary operations / load addresses / branches over two conditionals on the same outer condition whose arms hold independent inner conditionals, judged under all 16 combinations of the conditions): every alternative has e's width and no Less; under each of 9 valuations some alternative has e's value; a second call on the same tree gives the same alternatives. Non-trivial = tree with more than one alternative. Also the chains of two decided conditionals of C09.",
 		Assumptions: []string{"coverage of outcomes is decided on 9 valuations chosen so that each Less takes both branches somewhere"},
 		Run: func(r *eng.Run) {
-			names := []string{"leaf", "t1", "t2", "gadget", "condchain", "twin"}
+			names := []string{"leaf", "t1", "t2", "gadget", "condchain", "twin", "wide"}
 			if !r.Quick() {
-				names = append(names, "t3tiny", "wide")
+				names = append(names, "t3tiny")
 			}
 			forTrees(r, names, func(ref treeRef, e expr.Expr) {
 				f, n := c13Run(ref)
